@@ -274,6 +274,7 @@ fn eval_inner(target: &str, input: &str) -> Option<String> {
         "char_ref" => bounded::char_ref(input),
         "wf_reject" => bounded::wf_reject(input),
         "ns_scope" => nsscope::check(input),
+        "bytes_enc" => c02_bytes_enc(input),
         "line_ends" => bounded::line_ends(input),
         "level_order" => bounded::level_order(input),
         "tree_ops" => {
@@ -343,6 +344,8 @@ fn inputs(target: &str, large: bool) -> Vec<String> {
             seqs.retain(|s| s.ends_with('c') || s.ends_with('e'));
             let mut v = Vec::new();
             // one expanded name used twice: inside the scope of the declaration it relies on and outside it, as element and as attribute
+            // the xml prefix and the XML namespace: in use without declaration, repaired, bound to something else
+            for k in 0..10 { v.push(format!("X|{}", k)); }
             for d in ["p", "d"] { for second in ["eo", "ei", "ao", "ai", "an"] { for order in ["after", "before"] { for target in ["root", "r"] { v.push(format!("N|{}|{}|{}|{}", d, second, order, target)); } } } }
             for a in decls { for m in decls { for s in &seqs { v.push(format!("{}|{}|{}", a, m, s)); } } }
             v
@@ -368,6 +371,7 @@ fn inputs(target: &str, large: bool) -> Vec<String> {
         "char_ref" => bounded::ref_strings(large),
         "wf_reject" => bounded::wf_inputs(),
         "ns_scope" => nsscope::inputs(large),
+        "bytes_enc" => { let mut v = Vec::new(); for e in ["utf8", "utf8bom", "utf16le", "utf16be", "utf16lebom", "utf16bebom", "latin1", "cp1252"] { for d in 0..6 { for decl in 0..2 { v.push(format!("{}|{}|{}", e, d, decl)); } } } v }
         "line_ends" => bounded::line_end_inputs(large),
         "level_order" => { let mut v = Vec::new(); for d in 0..3 { for n in 0..12 { v.push(format!("{} {}", d, n)); } } v }
         "scope_queries" => {
@@ -1116,7 +1120,7 @@ mod bounded {
                   "<!-- -- --><a/>", "<a><!-- x</a>", "<a><!--x--->y</a>", "<?xml version=\"1.1\"?><a/>", "<?xml version=\"2.0\"?><a/>", "<!DOCTYPE a><a/>", "<!DOCTYPE a [<!ENTITY e \"x\">]><a>&e;</a>",
                   "<a><![CDATA[x</a>", "<a>]]></a>", "<a>&#0;</a>", "<a>&#xD800;</a>", "<a>&#xFFFE;</a>", "<a>&#x110000;</a>", "<a>&#x;</a>", "<a>&#;</a>", "<a>&#x1g;</a>", "<a>&#+65;</a>", "<a>&nbsp;</a>",
                   "<a xml:id=\"i\"><b xml:id=\"i\"/></a>", "<a xml:id=\"i\"><b xml:id=\" i \"/></a>", "<a><?pi</a>", "<a><?xml x?></a>", "<p:a/>", "<a p:x=\"1\"/>", "<a xmlns:p=\"u\"><q:b/></a>",
-                  "<a xmlns:p=\"u&bogus;\"/>", "<a xmlns:p=\"u\" xmlns:p=\"u\"/>", "<a x=\"1\" x=\"1\"/>", "<a><b x=\"1\" y=\"2\" x=\"3\"/></a>", "<a>\u{0}</a>", "<a>\u{1}</a>", "<a>\u{ffff}</a>", "<?xml version=\"1.0\"?>", "<a/><!--", "<a></a></a>", "<a/></a>", "x</a>", "<a/></b>", "<b/></a>"] {
+                  "<a xmlns:p=\"u&bogus;\"/>", "<a xmlns:p=\"u\" xmlns:p=\"u\"/>", "<a x=\"1\" x=\"1\"/>", "<a xmlns:p=\"\" p:x=\"1\" x=\"2\"/>", "<a xmlns:p=\"\" x=\"2\" p:x=\"1\"/>", "<a xmlns:p=\"u\" xmlns:q=\"u\" q:x=\"1\" p:x=\"2\"/>", "<a><b x=\"1\" y=\"2\" x=\"3\"/></a>", "<a>\u{0}</a>", "<a>\u{1}</a>", "<a>\u{ffff}</a>", "<?xml version=\"1.0\"?>", "<a/><!--", "<a></a></a>", "<a/></a>", "x</a>", "<a/></b>", "<b/></a>"] {
             v.push(format!("R|{}", d));
         }
         for l in ["UTF-8", "utf-8", "ISO-8859-1", "windows-1252", "US-ASCII", "foo", "UTF-16", "UTF-16LE", "UTF-32", "EBCDIC-CP-US", "x-user-defined", "", "replacement", "UTF-7", "Shift_JIS", "KOI8-R"] {
@@ -1501,6 +1505,19 @@ mod deepeq {
             let same_e = elems(&xot, a) == elems(&xot, b);
             if xot.advanced_deep_equal(a, b, |n| xot.is_element(n), |x, y| x == y) != same_e { return Some(format!("advanced_deep_equal({}, {}) on the {} with an elements-only filter is {}, the element structures are {}", ds[i], ds[j], what, !same_e, if same_e { "equal" } else { "different" })); }
         }
+        // attribute nodes, namespace nodes and the document node against its document element
+        {
+            let abn = |xot: &Xot, r: Node| -> Vec<Node> { xot.all_descendants(r).filter(|n| xot.is_attribute_node(*n) || xot.is_namespace_node(*n)).collect() };
+            let (xa, xb) = (abn(&xot, ra), abn(&xot, rb));
+            for x in &xa { for y in &xb {
+                let same = canon(&xot, *x, false) == canon(&xot, *y, false);
+                if xot.deep_equal(*x, *y) != same { return Some(format!("deep_equal on an attribute / namespace node of {} and one of {} is {}, canonical forms {} / {}", ds[i], ds[j], !same, canon(&xot, *x, false), canon(&xot, *y, false))); }
+                if xot.deep_equal_xpath(*x, *y, |p, q| p == q) != same { return Some(format!("deep_equal_xpath on an attribute / namespace node of {} and one of {} is {}, canonical forms {} / {}", ds[i], ds[j], !same, canon(&xot, *x, false), canon(&xot, *y, false))); }
+            }}
+            if let Ok(eb) = xot.document_element(rb) {
+                if xot.deep_equal(ra, eb) || xot.deep_equal_xpath(ra, eb, |p, q| p == q) { return Some(format!("the document node of {} is reported deep-equal to the document element of {}", ds[i], ds[j])); }
+            }
+        }
         // every pair of elements inside one document (ancestor / descendant pairs included)
         if i == j {
             let els: Vec<Node> = xot.descendants(ra).filter(|n| xot.is_element(*n)).collect();
@@ -1850,7 +1867,69 @@ mod htmltree {
         let mut v = Vec::new();
         for r in ['p', 'P', 's', 'x', 'm', 'v', 'f', 'D', 'F'] { for s in &seqs { for ind in ["0", "1"] { v.push(format!("{}|{}|{}", r, s, ind)); } } }
         v.push("T||0".into()); v.push("T||1".into());
+        // nested documents (parsed): void elements that carry declarations of their own inside HTML, SVG and MathML
+        for k in 0..nested_docs().len() { for ind in ["0", "1"] { v.push(format!("N|{}|{}", k, ind)); } }
         v
+    }
+    const SVG: &str = "http://www.w3.org/2000/svg";
+    const MML: &str = "http://www.w3.org/1998/Math/MathML";
+    fn nested_docs() -> Vec<String> {
+        // HTML elements are in no namespace here (the XHTML namespace is the subject of a known finding)
+        let mut v = Vec::new();
+        for void in ["img", "br", "hr", "input"] {
+            v.push(format!("<html><body><s:svg xmlns:s=\"{s}\"><s:foreignObject><{v} xmlns:x=\"urn:x\" x:a=\"1\"/></s:foreignObject><s:circle/></s:svg><p>after</p></body></html>", s = SVG, v = void));
+            v.push(format!("<svg xmlns=\"{s}\"><foreignObject><{v} xmlns=\"\"/></foreignObject><circle/></svg>", s = SVG, v = void));
+            v.push(format!("<p><{v} xmlns:x=\"urn:x\" x:a=\"1\"/><span><{v}/></span><b>t</b></p>", v = void));
+            v.push(format!("<div><m:math xmlns:m=\"{m}\"><m:mi>x</m:mi><{v} xmlns:y=\"urn:y\" y:b=\"2\"/><m:mo>+</m:mo></m:math><{v}/><p/></div>", m = MML, v = void));
+            v.push(format!("<f:frob xmlns:f=\"urn:f\"><{v} xmlns:g=\"urn:g\" g:c=\"3\"/><f:x g:a=\"1\" xmlns:g=\"urn:g\"/></f:frob>", v = void));
+        }
+        v
+    }
+    /// start and end tags of the output must nest, void elements have no end tag
+    fn check_nesting(out: &str) -> Option<String> {
+        const VOIDS: [&str; 14] = ["area", "base", "br", "col", "embed", "hr", "img", "input", "link", "meta", "param", "source", "track", "wbr"];
+        let mut stack: Vec<String> = Vec::new();
+        let b = out.as_bytes();
+        let mut i = 0;
+        while i < b.len() {
+            if b[i] == b'<' && i + 1 < b.len() && (b[i + 1].is_ascii_alphabetic() || b[i + 1] == b'/') {
+                let end_tag = b[i + 1] == b'/';
+                let start = if end_tag { i + 2 } else { i + 1 };
+                let mut j = start;
+                while j < b.len() && !(b[j] == b'>' || b[j] == b' ' || b[j] == b'/' || b[j] == b'\n') { j += 1; }
+                let name = out[start..j].to_string();
+                // skip to the end of the tag (attribute values are quoted with ")
+                let mut q = false; let mut k = j;
+                while k < b.len() && (q || b[k] != b'>') { if b[k] == b'"' { q = !q; } k += 1; }
+                let self_closed = k > 0 && b[k - 1] == b'/';
+                if end_tag { match stack.pop() { Some(t) if t == name => {} other => return Some(format!("end tag </{}> closes {:?}", name, other)) } }
+                else if !self_closed && !VOIDS.contains(&name.to_ascii_lowercase().as_str()) { stack.push(name); }
+                i = k;
+            }
+            i += 1;
+        }
+        if stack.is_empty() { None } else { Some(format!("unclosed elements {:?}", stack)) }
+    }
+    fn check_nested(k: usize, indent: bool) -> Option<String> {
+        let doc = nested_docs().get(k)?.clone();
+        let r = std::panic::catch_unwind(|| {
+            let mut xot = Xot::new();
+            let root = xot.parse(&doc).ok()?;
+            let params = xot::output::html5::Parameters { indentation: if indent { Some(Default::default()) } else { None }, ..Default::default() };
+            Some(xot.html5().serialize_string(params, root).map_err(|e| format!("{:?}", e)))
+        });
+        match r {
+            Err(_) => Some(format!("HTML5 serialisation of {:?} panics", doc)),
+            Ok(None) => None,
+            Ok(Some(Err(e))) => Some(format!("HTML5 serialisation of the valid document {:?} fails: {}", doc, e)),
+            Ok(Some(Ok(s))) => {
+                if !s.starts_with("<!DOCTYPE html>") { return Some(format!("{:?}: output does not start with the HTML doctype: {:?}", doc, s)); }
+                if let Some(why) = check_nesting(&s["<!DOCTYPE html>".len()..]) { return Some(format!("{:?}: tags of the HTML5 output {:?} do not nest: {}", doc, s, why)); }
+                // a declaration is written where it was, never repeated on a following sibling that does not carry it
+                for (name, uri) in [("circle", SVG), ("mo", MML)] { if s.contains(&format!("<{} xmlns=\"{}\"", name, uri)) { return Some(format!("{:?}: a redundant default declaration appears on <{}> in {:?}", doc, name, s)); } }
+                None
+            }
+        }
     }
     const VOID: [&str; 2] = ["br", "img"];
     fn mk(xot: &mut Xot, k: char) -> Option<xot::Node> {
@@ -1868,6 +1947,7 @@ mod htmltree {
     pub fn check(input: &str) -> Option<String> {
         let f: Vec<&str> = input.split('|').collect();
         if f.len() != 3 { return None; }
+        if f[0] == "N" { return check_nested(f[1].parse().ok()?, f[2] == "1"); }
         let r = std::panic::catch_unwind(|| {
             let mut xot = Xot::new();
             xot.set_text_consolidation(false);
@@ -1928,6 +2008,84 @@ fn c09_qname_default_ns() -> Option<String> {
 // namespace), and a second time - as an element outside that scope (eo) or inside it (ei), as an attribute outside
 // (ao: on a no-namespace element under r), on the first k itself (ai) or on a sibling of k inside the scope (an) -
 // met by a document-order walk before or after the first use; then create_missing_prefixes (twice)
+// (C02) "supplied as bytes in a declared encoding": the same document as text and as bytes in UTF-8 / UTF-16 (either byte
+// order, with and without byte-order mark) / ISO-8859-1 / windows-1252 must parse to deep-equal trees
+#[allow(dead_code)]
+fn c02_bytes_enc(input: &str) -> Option<String> {
+    let f: Vec<&str> = input.split('|').collect();
+    if f.len() != 3 { return None; }
+    let bodies = ["<a/>", "<a x=\"1\">text</a>", "<a>caf\u{e9} \u{fc}ber</a>", "<a><b>1</b>\n<c y=\"\u{e0}\"/></a>", "<a>plain ascii only, some of it long enough to matter</a>", "<a>&#233;&amp;</a>"];
+    let body = bodies.get(f[1].parse::<usize>().ok()?)?;
+    let label = match f[0] { "utf8" | "utf8bom" => "UTF-8", "utf16le" | "utf16lebom" => "UTF-16LE", "utf16be" | "utf16bebom" => "UTF-16BE", "latin1" => "ISO-8859-1", "cp1252" => "windows-1252", _ => return None };
+    // UTF-16 with a byte-order mark is labelled UTF-16 when it carries a declaration
+    let label = if f[0].ends_with("bom") && f[0].starts_with("utf16") { "UTF-16" } else { label };
+    let with_decl = f[2] == "1";
+    // without a declaration only the self-describing encodings apply
+    if !with_decl && (f[0] == "latin1" || f[0] == "cp1252" || f[0] == "utf16le" || f[0] == "utf16be") { return None; }
+    let text = if with_decl { format!("<?xml version=\"1.0\" encoding=\"{}\"?>{}", label, body) } else { body.to_string() };
+    let mut bytes: Vec<u8> = Vec::new();
+    match f[0] {
+        "utf8" => bytes.extend(text.as_bytes()),
+        "utf8bom" => { bytes.extend([0xEF, 0xBB, 0xBF]); bytes.extend(text.as_bytes()); }
+        "utf16le" | "utf16lebom" => { if f[0].ends_with("bom") { bytes.extend([0xFF, 0xFE]); } for u in text.encode_utf16() { bytes.extend(u.to_le_bytes()); } }
+        "utf16be" | "utf16bebom" => { if f[0].ends_with("bom") { bytes.extend([0xFE, 0xFF]); } for u in text.encode_utf16() { bytes.extend(u.to_be_bytes()); } }
+        _ => { for c in text.chars() { if (c as u32) < 256 { bytes.push(c as u32 as u8); } else { return None; } } }
+    }
+    let mut xot = Xot::new();
+    let want = xot.parse(body).ok()?;
+    let got = match std::panic::catch_unwind(std::panic::AssertUnwindSafe(|| xot.parse_bytes(&bytes))) {
+        Err(_) => return Some(format!("parse_bytes panics on {:?} as {}", text, f[0])),
+        Ok(Err(e)) => return Some(format!("{:?} supplied as {} bytes is rejected: {:?}", text, f[0], e)),
+        Ok(Ok(n)) => n };
+    if !xot.deep_equal(want, got) { return Some(format!("{:?} supplied as {} bytes parses to {:?}", text, f[0], xot.to_string(got))); }
+    None
+}
+
+// (C10) the xml prefix and the XML namespace: documents that use xml:lang / xml:space without any declaration stay as they
+// are under create_missing_prefixes; another prefix bound to the XML namespace keeps its declaration; the prefix xml bound
+// to another namespace keeps its declaration; each serialises, reparses deep-equal and keeps every expanded name
+#[allow(dead_code)]
+fn c10_xml_layouts(k: &str) -> Option<String> {
+    const XMLNS: &str = "http://www.w3.org/XML/1998/namespace";
+    let k: usize = k.parse().ok()?;
+    let docs = [
+        "<doc xml:lang=\"en\"/>".to_string(),
+        "<doc xml:lang=\"en\"><e xml:space=\"preserve\"> </e></doc>".to_string(),
+        "<doc><e xml:id=\"i\"><f xml:lang=\"de\"/></e></doc>".to_string(),
+        format!("<doc xmlns:foo=\"{}\" foo:lang=\"en\"><foo:e/></doc>", XMLNS),
+        format!("<doc><e xmlns:foo=\"{}\" foo:lang=\"en\" xml:space=\"default\"/></doc>", XMLNS),
+        "<doc xmlns:xml=\"http://example.com/a\"><xml:p xml:q=\"Q\"><xml:r/></xml:p></doc>".to_string(),
+        "<doc><e xmlns:xml=\"http://example.com/a\" xml:q=\"Q\"/></doc>".to_string(),
+    ];
+    let doc = docs.get(k % docs.len())?;
+    let repair = k >= docs.len() || k % 2 == 0;
+    let mut xot = Xot::new();
+    let root = match xot.parse(doc) { Ok(r) => r, Err(_) => return None };   // a parser that refuses the layout decides nothing here
+    let names = |xot: &Xot, root: xot::Node| -> Vec<String> { xot.descendants(root).filter(|n| xot.is_element(*n)).map(|n| { let (l, u) = xot.name_ns_str(xot.element(n).unwrap().name());
+        let mut at: Vec<String> = xot.attributes(n).iter().map(|(k, v)| { let (l, u) = xot.name_ns_str(k); format!("{{{}}}{}={}", u, l, v) }).collect(); at.sort();
+        format!("{{{}}}{}[{}]", u, l, at.join(",")) }).collect() };
+    let before = names(&xot, root);
+    if repair {
+        for round in 0..2 {
+            match std::panic::catch_unwind(std::panic::AssertUnwindSafe(|| xot.create_missing_prefixes(root))) {
+                Err(_) => return Some(format!("{}: create_missing_prefixes panics", doc)), Ok(Err(e)) => return Some(format!("{}: create_missing_prefixes fails: {:?}", doc, e)), Ok(Ok(())) => {} }
+            if names(&xot, root) != before { return Some(format!("{}: an expanded name or attribute changed (call {})", doc, round + 1)); }
+        }
+    }
+    let s = match xot.to_string(root) { Ok(s) => s, Err(e) => return Some(format!("{}{}: does not serialise: {:?}", doc, if repair { " after create_missing_prefixes" } else { "" }, e)) };
+    let back = match xot.parse(&s) { Ok(b) => b, Err(e) => return Some(format!("{}{}: serialises as {:?}, which does not reparse: {:?}", doc, if repair { " after create_missing_prefixes" } else { "" }, s, e)) };
+    if !xot.deep_equal(root, back) || names(&xot, back) != before { return Some(format!("{}{}: serialises as {:?}, which reparses to a different tree", doc, if repair { " after create_missing_prefixes" } else { "" }, s)); }
+    // the HTML5 serializer writes the same declarations (it must not drop one either)
+    if let Ok(h) = xot.html5().to_string(root) {
+        for (pre, uri) in [("foo", XMLNS), ("xml", "http://example.com/a")] {
+            if doc.contains(&format!("xmlns:{}=\"{}\"", pre, uri)) && (h.contains(&format!("<{}:", pre)) || h.contains(&format!(" {}:", pre))) && !h.contains(&format!("xmlns:{}=\"{}\"", pre, uri)) {
+                return Some(format!("{}: the HTML5 serialisation {:?} uses the prefix {} without its declaration", doc, h, pre));
+            }
+        }
+    }
+    None
+}
+
 #[allow(dead_code)]
 fn c10_same_name_twice(d: &str, second: &str, order: &str, target: &str) -> Option<String> {
     let mut xot = Xot::new();
@@ -1973,6 +2131,7 @@ fn c10_missing_prefixes(input: &str) -> Option<String> {
     // e = create_missing_prefixes(m); v = move the first child of m (an element in urn:A using the declarations above) under a fresh element
     let f: Vec<&str> = input.split('|').collect();
     if f.len() == 5 && f[0] == "N" { return c10_same_name_twice(f[1], f[2], f[3], f[4]); }
+    if f.len() == 2 && f[0] == "X" { return c10_xml_layouts(f[1]); }
     if f.len() != 3 { return None; }
     let decl = |d: &str| -> String { d.chars().map(|c| match c { '0' => " xmlns:n0=\"urn:A\"", '1' => " xmlns:n1=\"urn:A\"", 'p' => " xmlns:p=\"urn:A\"", 'd' => " xmlns=\"urn:A\"", _ => "" }).collect() };
     let has_a = f[0].chars().chain(f[1].chars()).any(|c| "01pd".contains(c));
@@ -2265,7 +2424,8 @@ mod nsscope {
         fn emit(i: usize, d: &[u32], kids: &dyn Fn(usize) -> Vec<usize>, p: Option<&'static str>, dflt: &'static str, out: &mut String, want: &mut Vec<(String, String)>, ok: &mut bool) {
             let (decl, pref, attr) = (d[3 * i], d[3 * i + 1], d[3 * i + 2]);
             let (p, dflt) = match decl { 1 => (Some("u"), dflt), 2 => (Some("v"), dflt), 3 => (p, "d"), _ => (p, dflt) };
-            let local = format!("e{}", i);
+            // every element below the root has the same written local name: a cache keyed on the written name must not leak a scope
+            let local = if i == 0 { "r".to_string() } else { "e".to_string() };
             let qname = if pref == 1 { format!("p:{}", local) } else { local.clone() };
             out.push('<'); out.push_str(&qname);
             match decl { 1 => out.push_str(" xmlns:p=\"u\""), 2 => out.push_str(" xmlns:p=\"v\""), 3 => out.push_str(" xmlns=\"d\""), _ => {} }
